@@ -525,9 +525,19 @@ func invalidate(t *rapid.T, d *Desc) string {
 		"unknown-axis-action-negative", "unknown-type", "unknown-collision-mode", "key-note-out-of-range", "axis-note-out-of-range",
 		"axis-note-negative-out-of-range", "cc-out-of-range", "cc-negative-out-of-range", "key-offset-out-of-range",
 		"axis-offset-out-of-range", "axis-offset-negative-out-of-range", "velocity-out-of-range", "default-channel-out-of-range",
-		"default-mapping-missing", "unknown-exit-key", "unknown-deadzone-axis"}
+		"default-mapping-missing", "unknown-exit-key", "unknown-deadzone-axis", "field-name-in-other-case"}
 	kind := rapid.SampledFrom(kinds).Draw(t, "invalidation")
 	switch kind {
+	case "field-name-in-other-case":
+		// TOML keys are case-sensitive: VELOCITY is not the field velocity, it is an unknown field (and must not silently
+		// override the value the file states under the proper name)
+		pick := rapid.SampledFrom([][2]string{{"defaults", "  VELOCITY = 100"}, {"defaults", "  Octave = 3"}, {"defaults", "  Channel = 5"},
+			{"top", "Collision_Mode = \"off\""}, {"identifier", "  BUS = 3"}, {"open_rgb", "  White = 1"}, {"mapping:0", "  NAME = \"other\""}}).Draw(t, "caseVariant")
+		if d.Inject == nil {
+			d.Inject = map[string]string{}
+		}
+		d.Inject[pick[0]] = pick[1]
+		return kind + ": " + strings.TrimSpace(pick[1])
 	case "unknown-field":
 		anchors := []string{"top", "identifier", "defaults", "open_rgb", "mapping:0"}
 		m0 := &d.Mappings[0]
